@@ -45,7 +45,8 @@ void queue_release(struct queue_m *q, struct logelem_m *e) { if (g_released < 10
 _Bool str_empty_id(const long *s) { return *s == 0; }
 void sleep_model(unsigned us) { }
 /* ---- flush(): the buffered lines as an array of line identities; the stream as a ghost count of insertions ---- */
-long g_line; long g_line_written; _Bool g_line_write_locked;
+long g_line; long g_line_written; _Bool g_line_write_locked; long g_endls;
+struct os_m *stream_put_endl(struct os_m *os) { if (g_endls < 1000000000L) g_endls++; return os; }
 struct os_m g_stream; long *g_items0; long g_n; long g_written; _Bool g_in_order, g_all_writes_locked, g_locked; const void *g_lock_obj; long g_acquires, g_releases;
 void guard_acquired(const void *m) { g_locked = 1; g_lock_obj = m; if (g_acquires < 1000) g_acquires++; }
 void guard_released(const void *m) { g_locked = 0; if (g_releases < 1000) g_releases++; }
@@ -88,10 +89,11 @@ void h_flush(void)
   struct FIX8_Logger lg; long n = nondet_long(); __CPROVER_assume(n >= 0 && n <= 1000000);
   long *items = malloc(sizeof(long) * (n + 1)); __CPROVER_assume(items != 0);
   lg._buffer.items = items; lg._buffer.n = n; lg._lines = nondet_uint();
-  g_items0 = items; g_n = n; g_written = 0; g_in_order = 1; g_all_writes_locked = 1; g_locked = 0; g_acquires = 0; g_releases = 0; g_clear_locked = 0;
+  g_items0 = items; g_n = n; g_written = 0; g_endls = 0; g_in_order = 1; g_all_writes_locked = 1; g_locked = 0; g_acquires = 0; g_releases = 0; g_clear_locked = 0;
   logger_flush(&lg);
   __CPROVER_assert(g_written == n, "C28.flush.every_buffered_line_is_written_exactly_once");
   __CPROVER_assert(g_in_order, "C28.flush.lines_are_written_in_buffer_order");
+  __CPROVER_assert(g_endls == n, "C28.flush.every_line_is_ended_and_pushed_to_the_file");
   __CPROVER_assert(lg._buffer.n == 0 && lg._lines == 0, "C28.flush.the_buffer_is_empty_afterwards_so_no_line_is_written_twice");
   __CPROVER_assert(g_all_writes_locked && g_clear_locked && g_lock_obj == (const void *)&lg._mutex && g_acquires == 1, "C28.flush.writes_and_the_clearing_happen_under_one_hold_of_the_logger_mutex");
   VACUITY_PROBE();
@@ -115,11 +117,13 @@ void h_output(void)
 {
   struct FIX8_Logger lg; struct logelem_m e; lg._flags.a_ = nondet_uint(); lg._buffer.items = 0; lg._buffer.n = 0;
   static long other_lines[4]; g_line = 7; g_prefix = 3; e._str = g_line; g_items0 = other_lines; g_written = 0;
-  g_line_appends = 0; g_pushed = 0; g_pushed_has_line = 0; g_line_written = 0; g_line_write_locked = 0; g_locked = 0; g_acquires = 0; g_releases = 0; g_flushes = 0;
+  g_line_appends = 0; g_pushed = 0; g_pushed_has_line = 0; g_line_written = 0; g_line_write_locked = 0; g_locked = 0; g_acquires = 0; g_releases = 0; g_flushes = 0; g_endls = 0;
   logger_output_line(&lg, &e);
   _Bool buffered = (lg._flags.a_ >> K_buffer) & 1u;
   __CPROVER_assert(!buffered || (g_pushed == 1 && g_pushed_has_line && g_line_written == 0), "C28.output.a_buffering_logger_appends_the_line_to_its_buffer_exactly_once_and_writes_nothing");
   __CPROVER_assert(buffered || (g_line_written == 1 && g_pushed == 0), "C28.output.a_direct_logger_inserts_the_line_into_the_stream_exactly_once");
+  { _Bool nolf = (lg._flags.a_ >> K_nolf) & 1u;
+    __CPROVER_assert(buffered || (nolf ? (g_flushes == 1 && g_endls == 0) : (g_endls == 1)), "C28.output.a_direct_write_reaches_the_file_before_the_step_ends_by_endl_or_an_explicit_flush"); }
   __CPROVER_assert(buffered || (g_line_write_locked && g_lock_obj == (const void *)&lg._mutex && g_acquires == 1 && !g_locked), "C28.output.a_direct_write_happens_under_the_logger_mutex_which_is_released_afterwards");
   VACUITY_PROBE();
 }
@@ -201,6 +205,9 @@ def _put_member(em, n, args, stmt):
     """ostream::operator<<(X): a function manipulator (endl, right) leaves the content alone; an unsigned value is recorded as the number written"""
     t = em.tstr(args[1]['type'])
     if '(*)' in t or '(&)' in t or t.strip().endswith(')'):
+        if _contains(args[1], lambda x: x.get('kind') == 'DeclRefExpr' and x.get('referencedDecl', {}).get('name') == 'endl'):
+            em.rules['stream_endl'] += 1
+            return '(*stream_put_endl(%s))' % em.lvalue_addr(args[0])      # endl ends the line and pushes the stream's content to the file
         em.rules['stream_manipulator_dropped'] += 1
         return em.expr(args[0])
     return '(*stream_put_uint(%s, %s))' % (em.lvalue_addr(args[0]), em.expr(args[1]))
@@ -208,7 +215,7 @@ def _put_member(em, n, args, stmt):
 
 UNIT = dict(
     name='k_log', tu='tu/rt_logger.cpp', no_follow=True,
-    probe={'K_direction': 'FIX8::Logger::direction', 'K_buffer': 'FIX8::Logger::buffer'},
+    probe={'K_direction': 'FIX8::Logger::direction', 'K_buffer': 'FIX8::Logger::buffer', 'K_nolf': 'FIX8::Logger::nolf'},
     emit=dict(
         pod=[r'std::basic_string<char>', r'(std::)?(__cxx11::)?list<.*>'],
         type_map=[(r'(std::basic_string<char>|std::string|FIX8::f8String)', 'long'),
@@ -251,8 +258,8 @@ UNIT = dict(
         dict(q='FIX8::Logger::process_logline', sig=None, cname='logger_number_line', keep_logging=True, select_node=_is_sequence_numbering),
         dict(q='FIX8::Logger::process_logline', sig=None, cname='logger_output_line', keep_logging=True, select_node=_is_output_step),
         dict(q='FIX8::Logger::flush', sig=None, cname='logger_flush', keep_logging=True,
-             loops={0: dict(assigns='__begin1, g_written, g_in_order, g_all_writes_locked, g_line_written, g_line_write_locked',
-                            invariants=[('inv.cursor', '0 <= g_written && g_written <= g_n && g_n <= 1000000 && __CPROVER_same_object(__begin1, g_items0) && __CPROVER_POINTER_OFFSET(__begin1) == g_written * (long)sizeof(long) && __end1 == g_items0 + g_n'), ('inv.so_far', 'g_in_order && g_all_writes_locked')])}),
+             loops={0: dict(assigns='__begin1, g_written, g_in_order, g_all_writes_locked, g_line_written, g_line_write_locked, g_endls',
+                            invariants=[('inv.cursor', '0 <= g_written && g_written <= g_n && g_n <= 1000000 && __CPROVER_same_object(__begin1, g_items0) && __CPROVER_POINTER_OFFSET(__begin1) == g_written * (long)sizeof(long) && __end1 == g_items0 + g_n'), ('inv.so_far', 'g_in_order && g_all_writes_locked && g_endls == g_written')])}),
         dict(q='FIX8::Logger::operator()', sig=None, cname='logger_consumer',
              loops={0: dict(assigns='received, g_q_lines, g_stop_requested, g_marker_in_queue, g_processed, g_released, g_pops, g_popped',
                             invariants=[('inv.queue', 'g_q_lines >= 0 && g_q_lines <= 1000000000L && (!g_marker_in_queue || g_stop_requested)')])}),
